@@ -200,6 +200,7 @@ def generate(ctx):
         suite_closure(ctx, case)
     for _ in range(ctx.n(50, 400)):
         sd = gen_cored_system(rng, 3, ctx.n(24, 64))
+        if rng.random() < 0.25: sd = G.scale_length(sd, rng.choice([1e-9, 1e-10, 1e-3, 1e-7]))          # the same system with lengths in metres / cm / other units
         xs = [G.gen_x(rng, sd, k) for k in ('zero', 'moderate', rng.choice(['moderate', 'asym']))]
         case = {'sys': sd, 'xs': xs}
         cored = sum(1 for pr in sd['pairs'].values() if has_core(pr, sd['kT']))
@@ -208,6 +209,7 @@ def generate(ctx):
     for _ in range(ctx.n(25, 200)):
         sd = gen_cored_system(rng, 3, 24)
         for pr in sd['pairs'].values(): pr['pot'][1] = None        # contact distances left to default
+        if rng.random() < 0.3: sd = G.scale_length(sd, rng.choice([1e-9, 1e-10, 1e-3, 1e-7]))
         dr = sd['dom'][1]
         edits = [[rng.randrange(sd['n']), G.grid_multiple(rng, dr, 0.4, 2.0)] for _ in range(rng.randint(1, 3))]
         case = {'sys': sd, 'edits': edits, 'x': G.gen_x(rng, sd, 'moderate')}
